@@ -1261,9 +1261,16 @@ ovni_mark_type(int32_t type, long flags, const char *title)
 	if (snprintf(key, 128, "ovni.mark.%"PRId32, type) >= 128)
 		die("type key too long");
 
+	const char *chan_type = flags & OVNI_MARK_STACK ? "stack" : "single";
 	JSON_Value *val = json_object_dotget_value(meta, key);
-	if (val != NULL)
-		die("type %"PRId32" already defined", type);
+	if (val != NULL) {
+		JSON_Object *old = json_value_get_object(val);
+		const char *otitle = old ? json_object_get_string(old, "title") : NULL;
+		const char *octype = old ? json_object_get_string(old, "chan_type") : NULL;
+		if (otitle && octype && strcmp(otitle, title) == 0 && strcmp(octype, chan_type) == 0)
+			return;
+		die("type %"PRId32" already defined with other arguments", type);
+	}
 
 	if (snprintf(key, 128, "ovni.mark.%"PRId32".title", type) >= 128)
 		die("title key too long");
@@ -1271,7 +1278,6 @@ ovni_mark_type(int32_t type, long flags, const char *title)
 	if (json_object_dotset_string(meta, key, title) != 0)
 		die("json_object_dotset_string() failed for title");
 
-	const char *chan_type = flags & OVNI_MARK_STACK ? "stack" : "single";
 	if (snprintf(key, 128, "ovni.mark.%"PRId32".chan_type", type) >= 128)
 		die("chan_type key too long");
 
@@ -1318,8 +1324,12 @@ ovni_mark_label(int32_t type, int64_t value, const char *label)
 		die("value key too long");
 
 	JSON_Value *val = json_object_dotget_value(meta, key);
-	if (val != NULL)
-		die("label '%s' already defined", label);
+	if (val != NULL) {
+		const char *old = json_value_get_string(val);
+		if (old != NULL && strcmp(old, label) == 0)
+			return;
+		die("value %"PRId64" already defined with another label", value);
+	}
 
 	if (json_object_dotset_string(meta, key, label) != 0)
 		die("json_object_dotset_string() failed");
